@@ -11,9 +11,11 @@ package main
 
 import (
 	"fmt"
+	"os"
 	"path/filepath"
 	"sort"
 	"strings"
+	"sync"
 	"testing"
 
 	"github.com/sourcegraph/zoekt/internal/verifshim/mc"
@@ -80,14 +82,36 @@ func c34Model(s *c33State, roots []string) c34Expect {
 	return e
 }
 
+// c34RecSet is the set of alive repositories (a repository may occupy several shard files).
 func c34RecSet(recs []c33Rec) []string {
+	seen := map[string]bool{}
 	var out []string
 	for _, r := range recs {
-		out = append(out, fmt.Sprintf("%q src=%s %s", r.Name, r.Source, r.Version))
+		k := fmt.Sprintf("%q src=%s %s", r.Name, r.Source, r.Version)
+		if !seen[k] {
+			seen[k] = true
+			out = append(out, k)
+		}
 	}
 	sort.Strings(out)
 	return out
 }
+
+// c34FileSet lists every (shard file, repository) pair.
+func c34FileSet(recs []c33Rec) []string {
+	var out []string
+	for _, r := range recs {
+		out = append(out, fmt.Sprintf("%s: %q src=%s %s", r.File, r.Name, r.Source, r.Version))
+	}
+	sort.Strings(out)
+	return out
+}
+
+// c34Fresh caches, per process, the inventory a sync produces from an EMPTY index directory.
+var (
+	c34FreshMu sync.Mutex
+	c34Fresh   = map[string][]string{}
+)
 
 func c34Check(w *c33World, s *c33State, dir, cmd string, res *c33StateResult) ([]c33Rec, error) {
 	idx := filepath.Join(dir, "idx")
@@ -160,6 +184,34 @@ func c34Check(w *c33World, s *c33State, dir, cmd string, res *c33StateResult) ([
 			got, exp := c34RecSet(recsAfter), c34RecSet(want)
 			if strings.Join(got, "\n") != strings.Join(exp, "\n") {
 				viol("index does not match the discovered repositories", fmt.Sprintf("want alive repositories:\n  %s\ngot:\n  %s", strings.Join(exp, "\n  "), strings.Join(got, "\n  ")))
+			}
+			// differential: the index reached from this state equals, shard file by shard file, the index
+			// the same sync builds from an empty directory (a repository that spans several shards keeps all of them)
+			fk := s.layoutString() + "|" + fcmd
+			c34FreshMu.Lock()
+			ref, ok := c34Fresh[fk]
+			c34FreshMu.Unlock()
+			if !ok {
+				fd := filepath.Join(dir, "fresh", "idx")
+				os.RemoveAll(fd)
+				if _, err := c33Run(dir, fd, fcmd); err == nil {
+					if recs, err := c33Inventory(w, dir, fd); err == nil {
+						ref = c34FileSet(recs)
+						ok = true
+					}
+				}
+				os.RemoveAll(filepath.Join(dir, "fresh"))
+				if ok {
+					c34FreshMu.Lock()
+					c34Fresh[fk] = ref
+					c34FreshMu.Unlock()
+				}
+			}
+			if ok {
+				if gotF := c34FileSet(recsAfter); strings.Join(gotF, "\n") != strings.Join(ref, "\n") {
+					viol("index differs from the index a sync of the same repositories builds from scratch", fmt.Sprintf("shard files after the sync from this state:\n  %s\nshard files after the same sync into an empty index directory:\n  %s", strings.Join(gotF, "\n  "), strings.Join(ref, "\n  ")))
+				}
+				res.Counts["sync_compared_with_fresh_index"]++
 			}
 			res.Counts["sync_success_cases"]++
 			if len(want) > 0 || len(s.Index) > 0 {
